@@ -356,7 +356,7 @@ J('C.unicode.iswfc_towfc', ['C17', 'C01'], 'C', 'contracts/extwchar/unicode.spec
   note='all 2^32 code points; loops over the constant folding tables are unwound to their constant length',
   assumptions=['towlower/iswupper (libc / towctrans.c) results are taken as they are; only the count agreement is checked'])
 J('C.unicode.decomp_index', ['C17', 'C01', 'C02'], 'C', 'contracts/extwchar/unicode.spec.c', sources=UNI_SRC + ['src/extwchar/towfc_s.c'], defines=['PART=4'],
-  functions=['_decomp_s', '_decomp_canonical_s'], timeout=1800, unwind=24, mem_gb=12, tiers=('thorough',),
+  functions=['_decomp_s', '_decomp_canonical_s'], timeout=1800, unwind=24, mem_gb=12, tiers=('thorough',), object_bits=14,
   note='every cp <= U+10FFFF, every dmax 1..20: table indices in bounds, writes inside dmax')
 
 # ---- C15 (wrapper logic): converters with the libc delegates as assumed contracts
